@@ -16,6 +16,7 @@ import sfc_models.equation_parser
 import sfc_models.equation_solver
 
 H = os.path.join(ROOT, 'vf', 'harness', 'c03_h.py')
+HG = os.path.join(ROOT, 'vf', 'harness', 'c03_gen_h.py')
 NAMES = ['x', 'xx', 'x_1']
 
 
@@ -169,7 +170,17 @@ def run(tier, seed):
     chk.extra['programs'] = tot['n']
     chk.distinct = set(range(tot['n']))
     chk.witness(tot['moved'] > 100, 'reduction moved variables in many blocks')
-    res = chx.run_file(H, timeout=T)
+    res = chx.run_file(H, timeout=T, workers=14)
     chx.absorb(chk, H, res)
+    from vf.harness.c03_gen import gen_blocks
+    gb = gen_blocks()
+    only = None
+    if tier == 'quick':
+        # every second block of the generated family, both of the 'users' placements alternating
+        only = {'check_k0_gen_%02d' % i for i in range(len(gb)) if i < 15 or (i // 2) % 2 == 0} | {'reach_k0_gen'}
+    resg = chx.run_file(HG, timeout=T, only=only, workers=14)
+    chx.absorb(chk, HG, resg)
+    chk.bounds['k=0 generated family'] = ('%d of %d generated blocks (one / two alias chains rooted in constant, exogenous, lagged, dynamic, initial-conditioned variable; '
+                                          'target-first / target-last / mixed order; lag and decorative users), same symbolic values' % (len(resg) - 1, len(gb)))
     chk.exhaustive = True
     return chk.finish()
